@@ -63,6 +63,11 @@ class IpReach:
         # octet = int(math.ceil(plength / 8))
         octet = len(data[1:])
 
+        # more prefix octets than an IPv6 address holds can not be an address: ip_address()
+        # raised ValueError on the nine groups built below, out of the decoder
+        if code == PROTOCOL_ID_IPV6 and octet > 16:
+            raise Notify(3, 10, f'BGP-LS ip reachability sub-tlv holds {octet} prefix octets, more than an address has')
+
         if code == PROTOCOL_ID_IPV6:
             # IPv6
             if len(data[1 : octet + 1]) % 2 == 1:
